@@ -31,9 +31,35 @@ INVENTORY = os.path.join(HERE, "known_functions.txt")
 def load_inventory() -> Optional[Set[str]]:
     try:
         with open(INVENTORY, encoding="utf-8") as fh:
-            return {l.strip() for l in fh if l.strip() and not l.startswith("#") and not l.startswith("attr ")}
+            return {l.strip() for l in fh if l.strip() and not l.startswith("#") and not l.startswith("attr ")
+                    and not l.startswith("sig ")}
     except OSError:
         return None
+
+
+def fingerprint(fn: ast.FunctionDef) -> str:
+    """Rename-independent shape of a method: parameter count, the self attributes it touches
+    (not the methods it calls), and its size class."""
+    a = fn.args
+    npar = len(a.posonlyargs) + len(a.args) + len(a.kwonlyargs)
+    called = {id(c.func) for c in ast.walk(fn) if isinstance(c, ast.Call)}
+    attrs = sorted({n.attr for n in ast.walk(fn) if isinstance(n, ast.Attribute) and isinstance(n.value, ast.Name)
+                    and n.value.id == "self" and id(n) not in called})
+    nst = sum(1 for n in ast.walk(fn) if isinstance(n, ast.stmt))
+    return f"{npar}|{','.join(attrs)}|{nst // 4}"
+
+
+def load_sig_inventory() -> Dict[str, str]:
+    out: Dict[str, str] = {}
+    try:
+        with open(INVENTORY, encoding="utf-8") as fh:
+            for l in fh:
+                if l.startswith("sig "):
+                    k, v = l[4:].strip().split("=", 1)
+                    out[k] = v
+    except OSError:
+        pass
+    return out
 
 
 def load_attr_inventory() -> Dict[Tuple[str, str], str]:
@@ -674,7 +700,48 @@ class _Getters(ast.NodeTransformer):
         return n
 
 
+CANON_LOCALS = {"_generate_updater": "perform_update"}
+LOG_LEVELS = ("debug", "info", "warning", "warn", "error", "exception", "critical", "log")
+
+
+def _strip_logging(tree: ast.Module, log: List[str], mod: str) -> None:
+    """Diagnostic statements (`logger.debug(...)`, `logging.info(...)`) whose arguments are plain
+    reads have no effect any property speaks about; they are dropped before analysis."""
+    logmods, loggers = set(), set()
+    for st in tree.body:
+        if isinstance(st, ast.Import):
+            for a in st.names:
+                if a.name == "logging":
+                    logmods.add(a.asname or "logging")
+    for st in tree.body:
+        if isinstance(st, ast.Assign) and len(st.targets) == 1 and isinstance(st.targets[0], ast.Name) \
+                and isinstance(st.value, ast.Call) and isinstance(st.value.func, ast.Attribute) \
+                and st.value.func.attr == "getLogger" and isinstance(st.value.func.value, ast.Name) \
+                and st.value.func.value.id in logmods:
+            loggers.add(st.targets[0].id)
+    if not (logmods or loggers):
+        return
+
+    def plain(e: ast.AST) -> bool:
+        return not any(isinstance(x, (ast.Call, ast.Await, ast.Yield, ast.YieldFrom, ast.NamedExpr, ast.Subscript))
+                       for x in ast.walk(e))
+    n = 0
+    for blk in _blocks(tree):
+        for st in list(blk):
+            if isinstance(st, ast.Expr) and isinstance(st.value, ast.Call) and isinstance(st.value.func, ast.Attribute) \
+                    and st.value.func.attr in LOG_LEVELS and isinstance(st.value.func.value, ast.Name) \
+                    and st.value.func.value.id in (logmods | loggers) \
+                    and all(plain(a) for a in st.value.args) and all(plain(k.value) for k in st.value.keywords):
+                blk.remove(st)
+                n += 1
+        if not blk:
+            blk.append(ast.Pass())
+    if n:
+        log.append(f"{mod}: {n} logging statement(s) ignored")
+
+
 def _local_normal_forms(tree: ast.Module, log: List[str], mod: str, inv: Set[str]) -> None:
+    _strip_logging(tree, log, mod)
     _Getters(log, mod).visit(tree)
     for fn in [n for n in ast.walk(tree) if isinstance(n, (ast.FunctionDef, ast.AsyncFunctionDef))]:
         # N1: a boolean flag bound once to a pure condition is replaced by the condition
@@ -705,9 +772,142 @@ def _local_normal_forms(tree: ast.Module, log: List[str], mod: str, inv: Set[str
                         return ast.copy_location(_clone(flags[n.id]), n)
                     return n
             Sub().visit(fn)
+        # N0: the local that receives the updater closure has one canonical name
+        for st in ast.walk(fn):
+            if isinstance(st, ast.Assign) and len(st.targets) == 1 and isinstance(st.targets[0], ast.Name) \
+                    and isinstance(st.value, ast.Call) and isinstance(st.value.func, ast.Attribute) \
+                    and st.value.func.attr in CANON_LOCALS:
+                old_nm, new_nm = st.targets[0].id, CANON_LOCALS[st.value.func.attr]
+                if old_nm != new_nm and stores.get(old_nm, 0) == 1 and stores.get(new_nm, 0) == 0 and new_nm not in params:
+                    for x in ast.walk(fn):
+                        if isinstance(x, ast.Name) and x.id == old_nm:
+                            x.id = new_nm
+                    stores[new_nm] = 1
+                    log.append(f"{mod}: local {old_nm} in {fn.name} renamed to {new_nm}")
+        loads: Dict[str, int] = {}
+        for n in ast.walk(fn):
+            if isinstance(n, ast.Name) and isinstance(n.ctx, ast.Load):
+                loads[n.id] = loads.get(n.id, 0) + 1
+        # N12: `if (x := E) <rest>:` where the walrus is the first thing evaluated -> `x = E; if x <rest>:`
+        for blk in _blocks(fn):
+            i = 0
+            while i < len(blk):
+                st = blk[i]
+                if isinstance(st, ast.If):
+                    first, holder = st.test, None
+                    if isinstance(first, ast.BoolOp):
+                        holder, first = first, first.values[0]
+                    cmp_ = first if isinstance(first, ast.Compare) else None
+                    w = cmp_.left if cmp_ is not None else first
+                    if isinstance(w, ast.NamedExpr) and isinstance(w.target, ast.Name):
+                        nm_ = ast.Name(id=w.target.id, ctx=ast.Load())
+                        if cmp_ is not None:
+                            cmp_.left = nm_
+                        elif holder is not None:
+                            holder.values[0] = nm_
+                        else:
+                            st.test = nm_
+                        blk.insert(i, ast.copy_location(ast.Assign(targets=[ast.Name(id=w.target.id, ctx=ast.Store())],
+                                                                   value=w.value), st))
+                        stores[w.target.id] = stores.get(w.target.id, 0)
+                        log.append(f"{mod}: walrus {w.target.id} in {fn.name} split into an assignment")
+                        i += 1
+                i += 1
+        # N13: `f(*t)` where t is a local bound once to a tuple/list literal of plain reads -> the elements
+        lit = {}
+        for st in ast.walk(fn):
+            if isinstance(st, ast.Assign) and len(st.targets) == 1 and isinstance(st.targets[0], ast.Name) \
+                    and isinstance(st.value, (ast.Tuple, ast.List)) and stores.get(st.targets[0].id, 0) == 1 \
+                    and all(isinstance(e, (ast.Name, ast.Constant, ast.Attribute)) for e in st.value.elts):
+                lit[st.targets[0].id] = st
+        if lit:
+            used = {}
+            for n in ast.walk(fn):
+                if isinstance(n, ast.Name) and isinstance(n.ctx, ast.Load) and n.id in lit:
+                    used[n.id] = used.get(n.id, 0) + 1
+            for c in ast.walk(fn):
+                if isinstance(c, ast.Call):
+                    new_args, changed_ = [], False
+                    for a_ in c.args:
+                        if isinstance(a_, ast.Starred) and isinstance(a_.value, ast.Name) and a_.value.id in lit \
+                                and used.get(a_.value.id) == 1:
+                            new_args.extend(_clone(e) for e in lit[a_.value.id].value.elts)
+                            changed_ = True
+                            dead = lit[a_.value.id]
+                            for blk in _blocks(fn):
+                                if dead in blk:
+                                    blk.remove(dead)
+                                    if not blk:
+                                        blk.append(ast.Pass())
+                            log.append(f"{mod}: star-argument {a_.value.id} in {fn.name} expanded")
+                        else:
+                            new_args.append(a_)
+                    if changed_:
+                        c.args = new_args
+        # N11: a local that is a plain alias of a pure read (row[i + 1], self._x) and whose defining
+        # read cannot change before its last use in the same block is replaced by the read
+        for blk in _blocks(fn):
+            k = 0
+            while k < len(blk):
+                st = blk[k]
+                if not (isinstance(st, ast.Assign) and len(st.targets) == 1 and isinstance(st.targets[0], ast.Name)
+                        and _alias_read(st.value) and isinstance(st.value, (ast.Attribute, ast.Subscript))):
+                    k += 1
+                    continue
+                x = st.targets[0].id
+                if x in params:
+                    k += 1
+                    continue
+                roots = {n.id for n in ast.walk(st.value) if isinstance(n, ast.Name)}
+                rest = blk[k + 1:]
+                use_idx = [j for j, s2 in enumerate(rest)
+                           if any(isinstance(n, ast.Name) and n.id == x and isinstance(n.ctx, ast.Load) for n in ast.walk(s2))]
+                n_here = sum(1 for s2 in rest for n in ast.walk(s2)
+                             if isinstance(n, ast.Name) and n.id == x and isinstance(n.ctx, ast.Load))
+                if not use_idx or n_here != loads.get(x, 0):
+                    k += 1
+                    continue
+                last = max(use_idx)
+                unsafe = False
+                for s2 in rest[:last + 1]:
+                    for n in ast.walk(s2):
+                        if isinstance(n, ast.Name) and isinstance(n.ctx, (ast.Store, ast.Del)) and (n.id == x or n.id in roots):
+                            unsafe = True
+                        if isinstance(n, (ast.Attribute, ast.Subscript)) and isinstance(n.ctx, (ast.Store, ast.Del)):
+                            r_ = n
+                            while isinstance(r_, (ast.Attribute, ast.Subscript)):
+                                r_ = r_.value
+                            if isinstance(r_, ast.Name) and r_.id in roots:
+                                unsafe = True
+                        if isinstance(n, ast.Call) and isinstance(n.func, ast.Attribute):
+                            r_ = n.func.value
+                            while isinstance(r_, (ast.Attribute, ast.Subscript)):
+                                r_ = r_.value
+                            if isinstance(r_, ast.Name) and r_.id in roots and r_.id not in ("self",) \
+                                    and n.func.attr in ("pop", "append", "insert", "remove", "clear", "sort", "reverse", "extend", "update"):
+                                unsafe = True
+                            if isinstance(r_, ast.Name) and r_.id == "self" and "self" in roots:
+                                unsafe = True  # a method reached through self may rebind the attribute
+                        if isinstance(n, (ast.FunctionDef, ast.Lambda)) and any(
+                                isinstance(y, ast.Name) and y.id == x for y in ast.walk(n)):
+                            unsafe = True
+                if unsafe or stores.get(x, 0) > 2:
+                    k += 1
+                    continue
+
+                class A(ast.NodeTransformer):
+                    def visit_Name(self, n):
+                        if n.id == x and isinstance(n.ctx, ast.Load):
+                            return ast.copy_location(_clone(st.value), n)
+                        return n
+                for j in range(last + 1):
+                    rest[j] = A().visit(rest[j])
+                blk[k:] = rest
+                loads[x] = 0
+                log.append(f"{mod}: alias {x} in {fn.name} replaced by `{ast.unparse(st.value)}`")
         # N1b: a local bound once and used once, as the (first operand of the) test of the very next
         # `if`, is replaced by its defining expression (nothing is evaluated in between)
-        loads: Dict[str, int] = {}
+        loads = {}
         for n in ast.walk(fn):
             if isinstance(n, ast.Name) and isinstance(n.ctx, ast.Load):
                 loads[n.id] = loads.get(n.id, 0) + 1
@@ -830,6 +1030,15 @@ def _local_normal_forms(tree: ast.Module, log: List[str], mod: str, inv: Set[str
                         log.append(f"{mod}: default assignment of {nm} in {fn.name} moved into the else branch")
                         continue
                 i += 1
+        # N14: `try: ..; v = E  except X: ..  else: return v`  ->  `try: ..; return E  except X: ..`
+        for n in ast.walk(fn):
+            if isinstance(n, ast.Try) and len(n.orelse) == 1 and isinstance(n.orelse[0], ast.Return) \
+                    and isinstance(n.orelse[0].value, ast.Name) and n.body and not n.finalbody:
+                v_ = n.orelse[0].value.id
+                if _is_assign_to(n.body[-1], v_) and loads.get(v_, 0) == 1:
+                    n.body[-1] = ast.copy_location(ast.Return(value=n.body[-1].value), n.body[-1])
+                    n.orelse = []
+                    log.append(f"{mod}: try/else return of {v_} in {fn.name} folded into the try body")
         # N6: single exit through a result variable -> early returns
         for _ in range(4):
             got = _sentinel_result(fn)
@@ -855,6 +1064,19 @@ def _local_normal_forms(tree: ast.Module, log: List[str], mod: str, inv: Set[str
                     blk[blk.index(st)] = ast.copy_location(new, st)
                     log.append(f"{mod}: conditional return in {fn.name} split")
     ast.fix_missing_locations(tree)
+
+
+def _alias_read(e: ast.AST) -> bool:
+    """Names, constants, attribute chains, subscripts with +/- index arithmetic: reads without calls."""
+    if isinstance(e, (ast.Name, ast.Constant)):
+        return True
+    if isinstance(e, ast.Attribute):
+        return _alias_read(e.value)
+    if isinstance(e, ast.Subscript):
+        return _alias_read(e.value) and _alias_read(e.slice)
+    if isinstance(e, ast.BinOp) and isinstance(e.op, (ast.Add, ast.Sub)):
+        return _alias_read(e.left) and _alias_read(e.right)
+    return False
 
 
 def _simple_target(t: ast.AST) -> bool:
